@@ -59,6 +59,8 @@ pub struct CaseOut {
     pub replay: Option<Value>,
     /// For enumerated units: additional distinct non-trivial fingerprints found inside the unit.
     pub extra_fps: Vec<u64>,
+    /// Invocations of the real binary whose behaviour agreed with the reference model.
+    pub validated: u64,
 }
 
 #[derive(Clone, Debug)]
@@ -172,6 +174,8 @@ pub struct WorkerResult {
     pub classes: BTreeMap<String, u64>,
     pub samples: Vec<Value>,
     pub excluded_known: u64,
+    #[serde(default)]
+    pub validated: u64,
     pub known_hits: BTreeMap<String, u64>,
     pub other_property_viols: BTreeMap<String, u64>,
     /// (part, key, msg, replay value)
@@ -202,6 +206,7 @@ impl<'a> Acc<'a> {
         self.res.evaluations += out.evals.max(1);
         self.res.cases += 1;
         self.res.excluded_known += out.excluded_known;
+        self.res.validated += out.validated;
         if out.nontrivial {
             self.fps.insert(out.fp);
         }
@@ -523,6 +528,7 @@ pub fn orchestrate(check: &mut dyn Check, tier: Tier, seed: u64) -> i32 {
                 merged.evaluations += wr.evaluations;
                 merged.cases += wr.cases;
                 merged.excluded_known += wr.excluded_known;
+                merged.validated += wr.validated;
                 fps.extend(wr.nontrivial_fps);
                 for (k, v) in wr.classes {
                     *merged.classes.entry(k).or_default() += v;
@@ -640,6 +646,9 @@ pub fn orchestrate(check: &mut dyn Check, tier: Tier, seed: u64) -> i32 {
     coverage.insert("samples".into(), json!(merged.samples));
     coverage.insert("classes".into(), json!(merged.classes));
     coverage.insert("excluded_known".into(), json!(merged.excluded_known));
+    if merged.validated > 0 {
+        coverage.insert("traces_validated_against_impl".into(), json!(merged.validated));
+    }
     coverage.insert("known_finding_hits".into(), json!(merged.known_hits));
     coverage.insert("regression_cases_replayed".into(), json!(regress_run));
     coverage.insert("violations_of_other_properties_seen".into(), json!(merged.other_property_viols));
